@@ -3,7 +3,7 @@
 T=$1; O=$2; SPEC=${3:-Trace_All}
 MD=$(mktemp -d /tmp/tlcw.XXXXXX)
 cd /verif/spec/trace
-TRACE=$T OUT=$O JAVA_TOOL_OPTIONS="-Xss1g -DTLA-Library=/verif/spec" timeout 1200 tlc -workers 1 -metadir $MD -cleanup -noGenerateSpecTE -config $SPEC.cfg $SPEC.tla > $O.log 2>&1
+TRACE=$T OUT=$O JAVA_TOOL_OPTIONS="-Xss1g -DTLA-Library=/verif/spec" timeout 1200 /verif/bin/tlcw -workers 1 -metadir $MD -cleanup -noGenerateSpecTE -config $SPEC.cfg $SPEC.tla > $O.log 2>&1
 R=$?
 rm -rf $MD
 grep -E "Error|error|states generated|Finished in" $O.log | head -20
